@@ -69,12 +69,25 @@ func traceSpecStep(op int, ev []mon.Event, res stepResult, presented []byte, rec
 			}
 		}
 		// every prf+ block: Reset, Write, Sum
-		if len(ev)%3 != 0 || len(ev) == 0 {
-			return fmt.Sprintf("prf+ trace has %d events", len(ev))
+		if len(ev) == 0 {
+			return "child derivation did not use Prf_d"
 		}
-		for i := 0; i < len(ev); i += 3 {
-			if ev[i].Op != "Reset" || ev[i+1].Op != "Write" || ev[i+2].Op != "Sum" {
-				return "prf+ block does not go Reset, Write, Sum"
+		// every block: a Reset, then writes, then Sum (how many writes is the implementation's business)
+		state := "idle"
+		for _, e := range ev {
+			switch e.Op {
+			case "Reset":
+				state = "reset"
+			case "Write":
+				if state != "reset" && state != "writing" {
+					return "prf+ block does not start with Reset"
+				}
+				state = "writing"
+			case "Sum":
+				if state != "writing" && state != "reset" {
+					return "prf+ Sum without a fresh computation"
+				}
+				state = "idle"
 			}
 		}
 		return ""
@@ -89,8 +102,23 @@ func traceSpecStep(op int, ev []mon.Event, res stepResult, presented []byte, rec
 		if e.Obj == "Prf_d" {
 			return "unprotect touched Prf_d"
 		}
-		if e.Op == "Write" && (i == 0 || ev[i-1].Op != "Reset" || ev[i-1].Obj != e.Obj) {
-			return "MAC Write not preceded by Reset on the same object"
+		if e.Op == "Write" {
+			// the computation this Write belongs to must have started with a Reset (chunked writes are fine)
+			ok := false
+			for j := i - 1; j >= 0; j-- {
+				if ev[j].Obj != e.Obj {
+					continue
+				}
+				if ev[j].Op == "Reset" {
+					ok = true
+				}
+				if ev[j].Op != "Write" {
+					break
+				}
+			}
+			if !ok {
+				return "MAC computation on " + e.Obj + " does not start with Reset"
+			}
 		}
 		if e.Op == "Decrypt" {
 			sawDecrypt = true
